@@ -478,6 +478,15 @@ theorem readElemV (e : Elem) (s : St) (hs : Live s) :
   · exact readIntV 8 s hs
   · exact readIntV 16 s hs
   · exact readUsizeV s hs
+  · exact agreeV_ret _ hs rfl
+  · refine agreeV_andThen (readBoolV s hs) ?_
+    intro b s1 l1 hi1 ha1
+    cases b
+    · exact agreeV_ret _ hi1 ha1
+    · exact agreeV_andThen (ha1 ▸ popV s1 hi1) (fun v s' l' hi ha => agreeV_ret _ hi ha)
+  · refine agreeV_andThen (popV s hs) ?_
+    intro a s1 l1 hi1 ha1
+    exact agreeV_andThen (ha1 ▸ readIntV 2 s1 hi1) (fun b s' l' hi ha => agreeV_ret _ hi ha)
 
 theorem readManyV (e : Elem) : ∀ (n : Nat) (s : St), Live s →
     AgreeV (readMany St.reader e n s) (readMany Mem e n (absV s))
